@@ -20,8 +20,10 @@ def run(ctx):
     # the whole family once more on a gateway whose string coercion was reconfigured (nothing about channels, closes, errors or
     # remote_exec may depend on the coercion switches)
     opts.append({"post_yields": True, "reconfigure": (False, True)})
+    # the real SocketIO over the scripted socket (partial sends, chunked receives)
+    opts.append({"post_yields": True, "transport": "socket", "chunking": "random"})
     if not ctx.quick:
-        opts.append({"post_yields": True, "transport": "socket", "chunking": "random"})
+        opts.append({"post_yields": False, "transport": "socket"})
         opts.append({"post_yields": False, "reconfigure": (True, True)})
     jobs = gc.jobs_for(progs, 24 if ctx.quick else 120, 10 if ctx.quick else 40, ctx.seed, opts)
     # preemption-bounded systematic search (every schedule with <= 1 preemption, yields before and after each operation)
